@@ -172,6 +172,19 @@ func (c *Crew) Errorf(format string, args ...interface{}) {
 // When the mid is either (the variable) TimersMachine and the given
 // state is nil, the timers machine's state is reset.
 func (c *Crew) SetMachine(ctx context.Context, mid string, src *crew.SpecSource, state *core.State) error {
+	var (
+		ss   *crew.SpecSource
+		spec *core.Spec
+	)
+	if src != nil && mid != TimersMachine && mid != CaptainMachine {
+		// Resolve the spec before changing (or reporting)
+		// anything.  If we can't, the crew stays as it was.
+		var err error
+		if ss, spec, err = ResolveSpecSource(ctx, src); err != nil {
+			return err
+		}
+	}
+
 	m, have := c.Machines[mid]
 
 	if !have {
@@ -181,6 +194,16 @@ func (c *Crew) SetMachine(ctx context.Context, mid string, src *crew.SpecSource,
 		}
 
 		c.Machines[mid] = m
+
+		// Report the state of a new machine even when no state
+		// was given.  (The id might be that of a machine that
+		// was just deleted: The new machine doesn't inherit
+		// that machine's state, and it's not deleted.)
+		c.change(mid).State = m.State.Copy()
+		c.change(mid).Deleted = false
+	} else if state != nil {
+		// Update the machine (and don't just report the change).
+		m.State = DefaultState(state)
 	}
 
 	if src != nil {
@@ -223,10 +246,6 @@ func (c *Crew) SetMachine(ctx context.Context, mid string, src *crew.SpecSource,
 		m.Specter = spec
 	default:
 		if src != nil {
-			ss, spec, err := ResolveSpecSource(ctx, src)
-			if err != nil {
-				return err
-			}
 			m.SpecSource = ss
 			m.Specter = spec
 		}
